@@ -171,6 +171,7 @@ Section Steps.
   Variables (wc : bytes) (ig : nat).
   Variable cn : value -> value.
   Notation dec := (decJ e wc ps_empty ig parseF).
+  Notation decm f := (djmix e wc ps_empty ig parseF f).   (* the recursive calls of one step (Ror2NoPanic.decJ_unfold) *)
 
   Definition good (f : nat) (t : ty) (x : jdoc) (v : value) : Prop := forall top tr, dec f top t x tr = Ok (cn v, tr).
 
@@ -178,10 +179,10 @@ Section Steps.
     Forall2 (good f t') xs vs -> dec (S f) top (TArray t') (JArr xs) tr = Ok (VArr (map cn vs), tr).
   Proof.
     intros H. rewrite decJ_unfold. unfold stepJ.
-    assert (G : forall i acc tr0, goJarr (dec f) t' xs i acc tr0 = Ok (VArr (rev acc ++ map cn vs), tr0)).
+    assert (G : forall i acc tr0, goJarr (decm f) t' xs i acc tr0 = Ok (VArr (rev acc ++ map cn vs), tr0)).
     { induction H as [|x v xs vs Hx _ IH]; intros i acc tr0.
       - cbn [goJarr map]. rewrite app_nil_r. reflexivity.
-      - cbn [goJarr]. rewrite (Hx false (enter_array i tr0)). cbn [bind]. unfold enter_array. rewrite pop_push.
+      - cbn [goJarr]. rewrite djmix_false, (Hx false (enter_array i tr0)). cbn [bind]. unfold enter_array. rewrite pop_push.
         rewrite (IH (S i) (cn v :: acc) tr0). cbn [rev map]. rewrite <- app_assoc. reflexivity. }
     rewrite G. reflexivity.
   Qed.
@@ -203,12 +204,12 @@ Section Steps.
       exists ((k, v) :: vs'). constructor; [|exact Hvs']. unfold R. cbn. auto. }
     destruct (HM ms (incl_refl ms)) as [vs' Hvs'].
     assert (G : forall l vs0, Forall2 R l vs0 -> forall acc tr0, NoDup (map fst acc ++ map fst l) ->
-              goJmap wc ps_empty ig (dec f) t' l acc tr0
+              goJmap wc ps_empty ig (decm f) t' l acc tr0
               = Ok (VMap (sort_entries (acc ++ map (fun kv => (fst kv, cn (snd kv))) vs0)), tr0)).
     { induction 1 as [|[k x] [k' v] l' vs0' [Ek [Hnn [Hx Hin]]] _ IHG]; intros acc tr0 HN.
       - cbn [goJmap map]. rewrite app_nil_r. reflexivity.
       - cbn [fst snd] in *. subst k'. cbn [goJmap]. rewrite jmatch by exact Hnn.
-        rewrite enter_map_empty. cbn [bind]. rewrite (Hx false _). cbn [bind]. rewrite pop_push. rewrite map_put_fresh.
+        rewrite enter_map_empty. cbn [bind]. rewrite djmix_false, (Hx false _). cbn [bind]. rewrite pop_push. rewrite map_put_fresh.
         + rewrite IHG.
           * cbn [map fst snd]. rewrite <- app_assoc. reflexivity.
           * rewrite map_app. cbn [map fst]. rewrite <- app_assoc. exact HN.
@@ -259,7 +260,7 @@ Section Steps.
       - rewrite (map_nth_error f_name _ _ Ej) in Hn. inversion Hn. eauto.
       - exfalso. apply nth_error_None in Ej. assert (j < length (map f_name fs)) by (apply nth_error_Some; congruence).
         rewrite map_length in H. lia. }
-    assert (Hmem : members_ok (dec f) cn fs target ms).
+    assert (Hmem : members_ok (decm f) cn fs target ms).
     { intros k x Hin Hx j Hi. destruct (Hidx k j Hi) as [fd [Hfd Hk]]. subst k.
       specialize (Hok j fd Hfd). destruct (nth_error target j) as [[v|]|] eqn:Et; [| |contradiction].
       - destruct Hok as [x' [Hx' [_ Hg]]].
@@ -273,7 +274,7 @@ Section Steps.
     assert (Er : required_fields e (S (length e)) n = map f_name (filter (fun fd => is_required (f_opt fd)) fs)).
     { cbn [required_fields]. rewrite Hl. reflexivity. }
     rewrite Ez, Er.
-    rewrite (goJrec_sim e wc ig (dec f) cn n fs Hl target ms _ _ tr Hmem). cbn [bind].
+    rewrite (goJrec_sim e wc ig (decm f) cn n fs Hl target ms _ _ tr Hmem). cbn [bind].
     set (init := map (fun fd => if is_required (f_opt fd) then Some (zero_value e (S (length e)) (f_ty fd)) else None) fs).
     (* no required field is left *)
     assert (Erem : fold_left step_rem ms (map f_name (filter (fun fd => is_required (f_opt fd)) fs)) = []).
@@ -314,7 +315,7 @@ Section Steps.
     intros Hl HN Hy Hj Hg. rewrite decJ_unfold. unfold stepJ. rewrite Hl. cbn [bind goJuni].
     rewrite jmatch by exact Hy. rewrite enter_map_empty. cbn [bind].
     rewrite (index_of_nth (map fst members) j alias 0 HN) by (rewrite (map_nth_error fst _ _ Hj); reflexivity).
-    cbn [Nat.add]. rewrite Hj. rewrite (Hg false _). cbn [bind]. rewrite pop_push. cbn [negb]. rewrite andb_false_r. reflexivity.
+    cbn [Nat.add]. rewrite Hj. rewrite djmix_false, (Hg false _). cbn [bind]. rewrite pop_push. cbn [negb]. rewrite andb_false_r. reflexivity.
   Qed.
 End Steps.
 
@@ -354,6 +355,7 @@ Section Plain.
 
   Notation cn := (canonical nan32 nan64).
   Notation dec := (decJ e wc ps_empty ig parseF).
+  Notation decm f := (djmix e wc ps_empty ig parseF f).   (* the recursive calls of one step (Ror2NoPanic.decJ_unfold) *)
   Notation good := (good e parseF wc ig cn).
   Notation jleaf := (json_leaf float_text).
 
